@@ -616,9 +616,28 @@ class PathCtx:
         return r != z3.unsat
 
     def hint_div(self, a, b):
-        """Ground instances of the division lemma (a == b*(a div b) + a mod b, 0 <= a mod b < |b|)
-        are built into z3's theory; nonlinear products get explicit help elsewhere."""
-        return
+        """Nonlinear help: when the dividend is syntactically a product that contains the divisor as a
+        factor, assert the ground instance of the lemma  b != 0 -> (b*k) % b == 0 and (b*k) div b == k.
+        The lemma schema itself is proved by z3 once per run (lemmas.prove_schemas), so nothing is assumed."""
+        try:
+            if not z3.is_app(a) or a.decl().kind() != z3.Z3_OP_MUL:
+                return
+            kids = a.children()
+            for i, kid in enumerate(kids):
+                if kid.eq(b):
+                    rest = [x for j, x in enumerate(kids) if j != i]
+                    k = rest[0]
+                    for x in rest[1:]:
+                        k = k * x
+                    key = (a.get_id(), b.get_id())
+                    if key in self._hinted:
+                        return
+                    self._hinted.add(key)
+                    self.solver.add(z3.Implies(b != 0, z3.And(a % b == 0, a / b == k)))
+                    self.lemma_instances = getattr(self, "lemma_instances", 0) + 1
+                    return
+        except z3.Z3Exception:
+            return
 
     # -- branching ---------------------------------------------------------
     def branch(self, cond):
